@@ -46,6 +46,10 @@ func init() {
 					emit(Case{Op: fmt.Sprintf("smf.long n=%d kind=%d seed=%d", n, kind, r.Intn(1<<20)), Tags: []string{"long-track"}, NonTrivial: true})
 				}
 			}
+			// very many consecutive alien chunks (empty ones): reading must stay iterative
+			for _, na := range []int{1000, 400000} {
+				emit(Case{Op: fmt.Sprintf("smf.manyaliens n=%d", na), Tags: []string{"many-alien-chunks"}, NonTrivial: true})
+			}
 			for i := 0; i < nc; i++ {
 				b := genRawSMF(r)
 				emit(Case{Op: "smf.read " + hx(b), Tags: []string{"stream-c:raw"}, NonTrivial: len(b) > 14})
@@ -211,6 +215,24 @@ func isEventPrefix(c, o string) bool {
 
 func runC05(c Case, m *Model) (v Verdict) {
 	v.Counts = map[string]int{}
+	if strings.HasPrefix(c.Op, "smf.manyaliens") {
+		var n int
+		fmt.Sscanf(fields(c.Op)["n"], "%d", &n)
+		b := make([]byte, 0, 14+8*n+12)
+		b = append(b, 'M', 'T', 'h', 'd', 0, 0, 0, 6, 0, 0, 0, 1, 0, 96)
+		for i := 0; i < n; i++ {
+			b = append(b, 'X', 'F', 'I', 'H', 0, 0, 0, 0)
+		}
+		b = append(b, 'M', 'T', 'r', 'k', 0, 0, 0, 4, 0x00, 0xFF, 0x2F, 0x00)
+		class, alloc := readMeasured(b)
+		if class != "ok:0/m:96/0:FF2F00" {
+			v.Oracle = append(v.Oracle, fmt.Sprintf("a valid file with %d empty alien chunks before its track reads as %s", n, short(class)))
+		}
+		if alloc > allocBound(len(b)) {
+			v.Oracle = append(v.Oracle, fmt.Sprintf("ReadFrom allocated %d bytes for %d alien chunks (%d bytes)", alloc, n, len(b)))
+		}
+		return
+	}
 	if strings.HasPrefix(c.Op, "smf.long") {
 		runLongTrack(c.Op, &v)
 		return
